@@ -588,6 +588,8 @@ def value_cases(tier):
     for name in ("batchnorm", "batchnorm-affine", "softmax", "logsoftmax", "softmax_crossentropy", "negative_log_likelihood",
                  "multiclass_hinge", "margin_ranking_loss", "focal_loss", "softmax_focal_loss", "gru", "gru-s0"):
         cs.append({"kind": "formula", "name": "val/%s" % name, "which": name})
+        if name != "gru":
+            cs.append({"kind": "formula", "name": "val/%s/no_autodiff" % name, "which": name, "untracked": True})
     return cs
 
 
@@ -790,7 +792,16 @@ def run_values(spec, tier, mg):
                             res["status"] = common.INCONCLUSIVE
         res["sample"] = {"case": spec["name"], "configuration (x, pool, stride)": list(spec["confs"][0])}
     else:
-        _run_formula(dict(spec, tier=tier), res, mg, explore)
+        if spec.get("untracked"):
+            # the same formula with graph tracking suspended: the value must not depend on it
+            def explore_untracked(body, **kw):
+                def wrapped():
+                    with mg.no_autodiff:
+                        return body()
+                return explore(wrapped, **kw)
+            _run_formula(dict(spec, tier=tier), res, mg, explore_untracked)
+        else:
+            _run_formula(dict(spec, tier=tier), res, mg, explore)
     return res
 
 
